@@ -119,6 +119,18 @@ pub fn cmd_ciphers(args: &[String]) -> i32 {
         qs.push(n.replace("CBC", "GCM"));
         qs.push(n.replace("ECDHE", "ECDH"));
         qs.push(n.replace("DHE", "DH"));
+        // characters outside ASCII whose low byte, folded form or visual form is a character of the name
+        if k % 4 == 0 {
+            let chars: Vec<char> = n.chars().collect();
+            for pos in [0usize, 4, chars.len() - 1] {
+                for f in [|c: char| char::from_u32(c as u32 + 0x100).unwrap(), |c: char| char::from_u32(c as u32 + 0xff00 - 0x20).unwrap_or(c),
+                          |c: char| char::from_u32(c as u32 + 0x10000).unwrap_or(c), |c: char| if c == 'S' { '\u{017f}' } else if c == 'K' { '\u{212a}' } else { char::from_u32(c as u32 + 0x400).unwrap() }] {
+                    let mut v = chars.clone();
+                    v[pos] = f(v[pos]);
+                    qs.push(v.into_iter().collect());
+                }
+            }
+        }
         // prefixes and tokens repeated or stripped
         qs.push(format!("TLS_{}", n));
         qs.push(format!("TLS_TLS_{}", n));
